@@ -18,6 +18,12 @@ def build(cfg):
         return numqi.state.Werner(cfg['d'], rf(cfg['a'])).astype(complex), (cfg['d'], cfg['d'])
     if fam == 'Isotropic':
         return numqi.state.Isotropic(cfg['d'], rf(cfg['a'])).astype(complex), (cfg['d'], cfg['d'])
+    if fam == 'EmbBell':
+        dA, dB = cfg['d'] // 10, cfg['d'] % 10
+        psi = np.zeros(dA * dB, dtype=complex)
+        psi[0] = psi[dB + 1] = 1 / math.sqrt(2)
+        p = rf(cfg['a'])
+        return (1 - p) * np.eye(dA * dB) / (dA * dB) + p * np.outer(psi, psi.conj()), (dA, dB)
     w = cfg['w']
     N = sum(w)
     if fam == 'Bell':
